@@ -16,7 +16,8 @@ RULE = ('case = a pool of value specs: one generated spec (Bool/Int/Float/Str/En
         'Tuple fixed+variable/Dict const+dynamic keys/Object/Union/Any, ranges, sizes, '
         'noneable/default/frozen, depth <= 3), `family` same-family variants of it (bounds '
         'and sizes moved by +-1/+-2 or dropped, enum sub/supersets, fields added/removed, '
-        'flags flipped, one nested spec varied) and `strangers` unrelated specs. Every spec: '
+        'flags flipped, one nested spec varied; or a relaxed twin that leaves bounds / sizes '
+        'unspecified, as a subclass overriding a field does) and `strangers` unrelated specs. Every spec: '
         'apply idempotence, default acceptable, spec unchanged by apply. Every ordered pair '
         '(A,B): if A.is_compatible(B) then every candidate value B accepts must be accepted '
         'by A; C=copy(A).extend(B): every value C accepts must be accepted by B on the shared '
@@ -1063,7 +1064,9 @@ def make_pool(rng, params):
   pool = [base]
   for _ in range(params['family']):
     src = rng.choice(pool)
-    v = S.variant(rng, src)
+    # A relaxed twin (bounds / sizes left unspecified, as in a subclass that
+    # overrides a field and inherits the rest) or a same-family variant.
+    v = S.relax(rng, src) if rng.random() < 0.3 else S.variant(rng, src)
     r = rng.random()
     if r < 0.3:
       v = S.add_transforms(rng, v, 0.5)
